@@ -2,6 +2,7 @@ package main
 
 import (
 	"fmt"
+	"strings"
 	"go/ast"
 	"go/token"
 	"go/types"
@@ -385,8 +386,8 @@ func (x *Unit) havocMods(st *State, m *modset) {
 			g = x.entry.ghost[k]
 		}
 		ng := Val{x.fresh("G_"+k, g.Sort), g.Typ}
-		if k == "now" {
-			x.assume(st, Cmp(">=", ng.T, g.T))
+		if k == "now" || strings.HasPrefix(k, "calls:") {
+			x.assume(st, Cmp(">=", ng.T, g.T)) // the clock and call counters only move forward
 		}
 		st.ghost[k] = ng
 	}
@@ -561,7 +562,11 @@ func (x *Unit) runLoop(pre *State, lb loopBody, fl *flow, label string) *State {
 			// per-iteration clause: iter(e) is e at the head of this iteration
 			savedIter := x.iterState
 			x.iterState = iterSnap
-			g := x.specEval(bs, sc.Expr, x.bodySpecCtx(bs, lb.node))
+			sctx := x.bodySpecCtx(bs, lb.node)
+			if rk, ok := bs.spec["$rangekey"]; ok {
+				sctx.names["rangekey"] = rk // the map key visited by this iteration
+			}
+			g := x.specEval(bs, sc.Expr, sctx)
 			x.iterState = savedIter
 			x.oblige(bs, fmt.Sprintf("loop%d.step", k), clauseLabel(sc, i), g.T, lb.node)
 		}
